@@ -337,6 +337,14 @@ class Limits:
         world.db.flush_dbs(world.bp.flush_data(), False, 0)          # history-only
         after = {t: len(world.history[W.hashX_of(W.script_for(t))]) for t in tags}
         jobs = []
+        import time as _time
+        import electrumx.server.db as dbmod
+        orig_sleep, retried = dbmod.sleep, set()
+
+        async def counting_sleep(t):                 # the sleep of DB.limited_history's retry loop
+            retried.add(id(asyncio.current_task()))
+            await orig_sleep(t)
+        dbmod.sleep = counting_sleep
         for ctx, _runner, near, hx, L, status_of in per_mgr:
             ctx.mgr_ref._history_cache.clear()
             sess = ctx.sessions[0]
@@ -351,12 +359,19 @@ class Limits:
                     return ('timeout',)
             for n in near:
                 jobs.append((L, 1000 + n, asyncio.ensure_future(ask(sess, 'blockchain.scripthash.get_history', 1000 + n))))
-        await asyncio.sleep(0.4)         # the requests are now waiting in the DB's retry loop
+        t0 = _time.time()                # wait until every request has been through the retry loop's sleep
+        while (any(not f.done() and id(f) not in retried for _L, _t, f in jobs)
+               and _time.time() - t0 < 15):     # (a script already at the limit is refused without a retry)
+            await asyncio.sleep(0.05)
+        self.res.bump('retry_window_requests_that_slept_in_the_retry_loop', len(retried))
         self.res.bump('retry_window_requests_still_waiting_when_the_flush_completed',
                       sum(1 for _L, _t, f in jobs if not f.done()))
+        if not retried:
+            self.res.harness_errors.append('retry_window: no request reached the retry loop of DB.limited_history')
         world.flush()                    # the full flush commits the block
-        for L, tag, fut in jobs:
-            r = await fut
+        results = [await fut for _L, _t, fut in jobs]
+        dbmod.sleep = orig_sleep
+        for (L, tag, fut), r in zip(jobs, results):
             self.res.bump('retry_window_requests')
             self.res.evaluations += 1
             case = {'part': 'retry_window', 'limit': L, 'length_before': before[tag], 'length_after': after[tag]}
@@ -370,6 +385,93 @@ class Limits:
             elif r[0] == 'rpc':
                 if after[tag] < L:
                     self.violation('history', f'get_history in the flush window refused ({r}) a history of {after[tag]} < L={L}', case)
+
+    async def stale_read_part(self, world, per_mgr, lengths):
+        """A history read in flight across TWO notifications.  For a script with L-1 confirmed entries:
+        get_history with an empty cache, the DB read held in its worker thread after the tx numbers were
+        taken; a block gives the script its L-th entry, is flushed and notified (the invalidation); a
+        second notification that does not touch the script follows; the read is released.  Afterwards the
+        server must answer 'history too large' - what the held request read is a history of the chain
+        before the block and must not have been put into the cache behind the invalidation.
+        Direct oracle only (real sessions, real DB, real worker thread)."""
+        import threading
+        from aiorpcx import Request, RPCError
+        H = lambda t: W.hashX_of(W.script_for(t))          # noqa: E731
+
+        async def ask(sess, method, tag):
+            try:
+                return await asyncio.wait_for(
+                    sess.handle_request(Request(method, [W.scripthash_hex(W.script_for(tag))])), 30)
+            except RPCError as e:
+                return ('rpc', e.code)
+            except asyncio.TimeoutError:
+                return ('timeout',)
+        for ctx, _runner, _near, _hx, L, _status_of in per_mgr:
+            cands = [(len(world.history[H(1000 + n)]), 1000 + n) for n in lengths
+                     if L - 4 <= len(world.history[H(1000 + n)]) < L]
+            if not cands:
+                continue
+            cur, tag = max(cands)
+            while cur < L - 1:
+                await world.add_block([tag])
+                world.flush()
+                cur += 1
+            hashX = H(tag)
+            for c, *_ in per_mgr:
+                if hashX in c.mgr_ref._history_cache:
+                    del c.mgr_ref._history_cache[hashX]
+            mgr, sess = ctx.mgr_ref, ctx.sessions[0]
+            world.mgr = ctx.w.mgr = mgr
+            world.max_send = ctx.max_send_ref
+            world.sessions = ctx.sessions
+            orig = world.db.fs_tx_hash
+            gate, entered, armed = threading.Event(), threading.Event(), [True]
+
+            def held(tx_num):
+                if armed[0]:
+                    armed[0] = False
+                    entered.set()
+                    gate.wait(30)
+                return orig(tx_num)
+            world.db.fs_tx_hash = held
+            try:
+                first = asyncio.ensure_future(ask(sess, 'blockchain.scripthash.get_history', tag))
+                for _ in range(2000):
+                    if entered.is_set():
+                        break
+                    await asyncio.sleep(0.005)
+                if not entered.is_set():
+                    self.res.harness_errors.append('stale_read: the history read never reached the worker thread')
+                    gate.set()
+                    await first
+                    continue
+                touched = await world.add_block([tag])
+                world.flush()
+                await mgr._notify_sessions(world.height, set(touched))     # the block: invalidates
+                await mgr._notify_sessions(world.height, set())            # e.g. the next mempool refresh
+                gate.set()
+                r1 = await first
+            finally:
+                gate.set()
+                del world.db.fs_tx_hash
+            r2 = await ask(sess, 'blockchain.scripthash.get_history', tag)
+            r3 = await ask(ctx.sessions[1], 'blockchain.scripthash.subscribe', tag)
+            now = len(world.history[hashX])
+            self.res.bump('stale_read_scenarios')
+            self.res.evaluations += 1
+            case = {'part': 'stale_read', 'limit': L, 'length_before': L - 1, 'length_after': now}
+            if isinstance(r1, list) and len(r1) != L - 1:
+                self.violation('history', f'the request in flight across the block returned {len(r1)} entries '
+                                          f'(history before {L - 1}, after {now}, limit {L})', case)
+            if r2 != ('rpc', 1):
+                self.violation('history', f'after a block gave the script its L-th entry (L={L}) and a further notification, '
+                                          f'get_history answers {("%d entries" % len(r2)) if isinstance(r2, list) else r2} '
+                                          f'instead of "history too large": the read that was in flight was cached behind the '
+                                          f'invalidation', case)
+            if r3 != ('rpc', 1) or hashX in ctx.sessions[1].hashX_subs:
+                self.violation('subscribe', f'after the same history: subscribe answers '
+                                            f'{r3 if not isinstance(r3, str) else "a status"} / subscription kept: '
+                                            f'{hashX in ctx.sessions[1].hashX_subs} for a history of {now} >= L={L}', case)
 
     async def history_all(self):
         res = self.res
@@ -396,6 +498,7 @@ class Limits:
             for ctx, runner, *_ in per_mgr:
                 res.bump('disagreeing_lines', runner.finish())
             await self.retry_window_part(world, per_mgr)
+            await self.stale_read_part(world, per_mgr, lengths)
         finally:
             world.close()
 
